@@ -1114,7 +1114,7 @@ impl Template {
     fn build_eq_expr(&self, this: TokenStream, other: TokenStream) -> TokenStream {
         let this = self.apply(this);
         let other = self.apply(other);
-        quote_spanned!(self.span()=> ::core::cmp::PartialEq::eq(&(#this), &(#other)))
+        quote_spanned!(self.call_span()=> ::core::cmp::PartialEq::eq(&(#this), &(#other)))
     }
 
     fn build_eq_checker(&self, this: TokenStream) -> TokenStream {
@@ -1124,18 +1124,23 @@ impl Template {
     fn build_partial_cmp_expr(&self, this: TokenStream, other: TokenStream) -> TokenStream {
         let this = self.apply(this);
         let other = self.apply(other);
-        quote_spanned!(self.span()=> ::core::cmp::PartialOrd::partial_cmp(&(#this), &(#other)))
+        quote_spanned!(self.call_span()=> ::core::cmp::PartialOrd::partial_cmp(&(#this), &(#other)))
     }
 
     fn build_cmp_expr(&self, this: TokenStream, other: TokenStream) -> TokenStream {
         let this = self.apply(this);
         let other = self.apply(other);
-        quote_spanned!(self.span()=> ::core::cmp::Ord::cmp(&(#this), &(#other)))
+        quote_spanned!(self.call_span()=> ::core::cmp::Ord::cmp(&(#this), &(#other)))
+    }
+
+    /// The location of the key expression, with names (`::core`, `__state`) resolved at the macro call site
+    /// (in the edition of the user's span a leading `::` may mean the crate root).
+    fn call_span(&self) -> Span {
+        self.span().resolved_at(Span::call_site())
     }
 
     fn build_hash_stmt(&self, this: TokenStream) -> TokenStream {
         let this = self.apply(this);
-        // location of the key expression, names (`__state`) resolved at the macro call site
         let span = this.span().resolved_at(Span::call_site());
         quote_spanned!(span=> ::core::hash::Hash::hash(&(#this), __state);)
     }
@@ -1157,7 +1162,7 @@ fn build_to_index_fn(variants: &[VariantEntry]) -> TokenStream {
 }
 
 fn build_eq_checker(this: TokenStream) -> TokenStream {
-    quote_spanned!(this.span()=>{
+    quote_spanned!(this.span().resolved_at(Span::call_site())=>{
         fn __assert_eq<T: ::core::cmp::Eq + ?::core::marker::Sized>(__this: &T) { }
         __assert_eq(&(#this))
     })
